@@ -132,6 +132,7 @@ type opPlan struct {
 	result       any
 	useResponder bool
 	failWith     int // handler returns an error with this code (0 = success)
+	respFailAt   int // >=0: the handler answers with a stream that fails after that many bytes (octet-stream only); -1 none
 	failMsg      string
 }
 
@@ -330,6 +331,14 @@ func (pl *opPlan) genValues(t *kernel.Tape, env *kernel.Env) (awk bool) {
 		pl.status = pl.failWith
 		pl.hdrs = map[string]string{}
 	}
+	pl.respFailAt = -1
+	if pl.prod == "application/octet-stream" && pl.failWith == 0 && t.Bool(5, "response-stream-fails") {
+		// the handler hands back a stream (a file, a proxied body) that breaks off part-way
+		pl.useResponder = false
+		pl.hdrs = map[string]string{}
+		pl.status = pl.op.Success
+		pl.respFailAt = t.Choose(3000, "response-stream-fails-at")
+	}
 	s, a := genString(t, 6, "resp-body")
 	awk = awk || a
 	switch pl.prod {
@@ -470,6 +479,13 @@ func (prop) Run(t *testing.T, tape *kernel.Tape, sc kernel.Scenario) *kernel.Res
 			if pl.failWith != 0 {
 				return nil, errors.New(int32(pl.failWith), "%s", pl.failMsg)
 			}
+			if pl.respFailAt >= 0 {
+				data := bytes.Repeat([]byte("streamed response "), 200)
+				st := kernel.NewStream(env, "response-payload", data[:pl.respFailAt])
+				st.Term = &kernel.InjectedError{What: "the handler's response stream failed"}
+				st.ChunkMode = kernel.ChunkRandom
+				return kernel.ReaderOnly{S: st}, nil
+			}
 			if !pl.useResponder {
 				return pl.result, nil
 			}
@@ -577,6 +593,14 @@ func (prop) Run(t *testing.T, tape *kernel.Tape, sc kernel.Scenario) *kernel.Res
 	vc := valueClass(target)
 	if submitPanic != "" {
 		env.Violate("C04/panic", vc, "Submit (or the server behind the bridge) panicked: %s", submitPanic)
+		res.FromEnv(env)
+		return res
+	}
+	if target.respFailAt >= 0 && world.Slots[0].HandlerRan == 1 {
+		// the response broke off while it was being produced: the caller must not be handed a complete-looking result
+		if submitErr == nil && obs.err == nil {
+			env.Violate("C04/response-differs", "producer-failed-midway", "the handler's response stream failed after %d bytes, yet the caller got status %d and %d body bytes without any error", target.respFailAt, obs.code, len(obs.raw))
+		}
 		res.FromEnv(env)
 		return res
 	}
